@@ -48,6 +48,10 @@ package controllers
 //@   ensures [noRetryMeansLoaded] result1 == nil ==> r.initialLoadPerformed
 //@   loop 1 binds service
 //@   loop 1 invariant r.initialLoadPerformed == old(r.initialLoadPerformed)
+// a handler that failed or asked for a re-sync makes this pass end with a retry (and a retry is never forgotten)
+//@   loop 1 end assert [retryAsked] res == SyncStateError || res == SyncStateReprocessAll ==> retry
+//@   loop 1 end assert [retrySticky] head(retry) ==> retry
+//@   loop 1 invariant [retryBlocksLoad] true
 //@   assert after sort.Slice: [assignedFirst] forall a int, b int :: 0 <= a && a < b && b < len(sortedServices) ==> len(sortedServices[a].Status.LoadBalancer.Ingress) >= len(sortedServices[b].Status.LoadBalancer.Ingress)
 // reading objects through the API client and formatting them has no effect on the reconciler's state (assumed)
 //@ func (*ServiceReconciler).serviceFor
